@@ -28,6 +28,9 @@ pub struct Unit {
     /// custom help flag names (then `--help` itself is an ordinary unknown flag)
     #[serde(default)]
     pub custom_help: bool,
+    /// only the sub-commands get the custom names, the top level keeps --help / -h
+    #[serde(default)]
+    pub custom_sub_only: bool,
 }
 
 /// reference level finder: the path (command indices) of the level that owns token position
@@ -210,7 +213,7 @@ struct Env10<'a> {
 
 fn check_base(e: &mut Env10, argv: &[Tok], only: Option<(usize, &str)>, ctx: &mut Ctx) {
     let dd = argv.iter().position(|x| x.0 == b"--").unwrap_or(argv.len());
-    let tokens: Vec<&str> = if e.u.custom_help { vec!["--ayuda", "-п", "--help"] } else { vec!["--help", "-h", "--version", "-V"] };
+    let tokens: Vec<&str> = if e.u.custom_help { vec!["--ayuda", "-п", "--help", "-h"] } else { vec!["--help", "-h", "--version", "-V"] };
     for pos in 0..=dd {
         for token in &tokens {
             if let Some((p0, t0)) = only {
@@ -224,7 +227,7 @@ fn check_base(e: &mut Env10, argv: &[Tok], only: Option<(usize, &str)>, ctx: &mu
             ctx.s.transitions += 1;
             let r = run(e.p, &v2);
             let is_version = *token == "--version" || *token == "-V";
-            let is_plain_unknown = e.u.custom_help && *token == "--help";
+            let mut is_plain_unknown = e.u.custom_help && !e.u.custom_sub_only && (*token == "--help" || *token == "-h");
             // who owns the position?
             let (path, expected): (Option<Vec<usize>>, Option<Outcome>) = match (&e.u.level, &e.model) {
                 (Some(root), Some(model)) => match owner(root, model, argv, pos) {
@@ -234,12 +237,21 @@ fn check_base(e: &mut Env10, argv: &[Tok], only: Option<(usize, &str)>, ctx: &mu
                     }
                     Some(path) => {
                         let lvl = level_at(root, &path);
+                        if e.u.custom_help && e.u.custom_sub_only {
+                            // which names ask this level for help?
+                            let level_is_custom = !path.is_empty();
+                            let token_is_custom = *token == "--ayuda" || *token == "-п";
+                            is_plain_unknown = level_is_custom != token_is_custom;
+                        }
                         if is_version && lvl.version.is_none() {
                             (Some(path), None)
                         } else {
                             let key = (path.clone(), token.to_string());
                             let canon_token = match *token {
-                                "-h" | "--ayuda" | "-п" => if e.u.custom_help { "--ayuda" } else { "--help" },
+                                "-h" | "--help" | "--ayuda" | "-п" => {
+                                    let level_is_custom = e.u.custom_help && (!e.u.custom_sub_only || !path.is_empty());
+                                    if level_is_custom { "--ayuda" } else { "--help" }
+                                }
                                 "-V" => "--version",
                                 t => t,
                             };
@@ -355,7 +367,7 @@ impl Check for C10 {
             j += 1;
             let l = with_versions(l, j % 3);
             let alpha = alphabet(&l, AlphaStyle::Compact);
-            out.push(Unit { level: Some(l), opts: None, len: tier.pick(3, 4), family: "conventional".into(), alpha, custom_help: false });
+            out.push(Unit { level: Some(l), opts: None, len: tier.pick(3, 4), family: "conventional".into(), alpha, custom_help: false, custom_sub_only: false });
         }
         let ctails = fam::cmd_tails(seed, true, false);
         for l in fam::conventional(2, &ctails, seed + 1) {
@@ -365,7 +377,7 @@ impl Check for C10 {
             }
             let l = with_versions(l, j % 3);
             let alpha = alphabet(&l, AlphaStyle::Compact);
-            out.push(Unit { level: Some(l), opts: None, len: tier.pick(2, 3), family: "conventional".into(), alpha, custom_help: false });
+            out.push(Unit { level: Some(l), opts: None, len: tier.pick(2, 3), family: "conventional".into(), alpha, custom_help: false, custom_sub_only: false });
         }
         for l in crate::checks::c08::trees(seed) {
             j += 1;
@@ -374,18 +386,18 @@ impl Check for C10 {
             }
             let l = with_versions(l, j % 3);
             let alpha = alphabet(&l, AlphaStyle::Compact);
-            out.push(Unit { level: Some(l), opts: None, len: tier.pick(2, 3), family: "command-trees".into(), alpha, custom_help: j % 5 == 0 });
+            out.push(Unit { level: Some(l), opts: None, len: tier.pick(2, 3), family: "command-trees".into(), alpha, custom_help: j % 5 == 0 || j % 7 == 0, custom_sub_only: j % 7 == 0 });
         }
         for o in shape::shapes(1, seed).into_iter().chain(shape::shapes(2, seed)) {
             j += 1;
             if tier == Tier::Quick && j % 2 == 0 {
                 continue;
             }
-            out.push(Unit { level: None, opts: Some(o), len: tier.pick(2, 3), family: "shapes".into(), alpha: vec![], custom_help: false });
+            out.push(Unit { level: None, opts: Some(o), len: tier.pick(2, 3), family: "shapes".into(), alpha: vec![], custom_help: false, custom_sub_only: false });
         }
         for (o, f) in crate::checks::c19::group_shapes(seed) {
             let alpha = crate::checks::c19::group_alphabet(&o);
-            out.push(Unit { level: None, opts: Some(o), len: tier.pick(3, 4), family: f, alpha, custom_help: false });
+            out.push(Unit { level: None, opts: Some(o), len: tier.pick(3, 4), family: f, alpha, custom_help: false, custom_sub_only: false });
         }
         out.into_iter().map(|u| serde_json::to_value(u).unwrap()).collect()
     }
@@ -401,7 +413,7 @@ impl Check for C10 {
         run_u(&u, unit, Some((&base, pos, &token)), ctx);
     }
     fn rule(&self) -> String {
-        "definitions = conventional levels (<=2 named items x all tails incl. command tails of depth 3, version configured nowhere / at the top / everywhere), command trees of C08 (every fifth with custom help names), the general shape family and adjacent group shapes; base vectors = every vector of the token tree (valid, invalid, incomplete); the help token (--help, -h, custom names) and the version token (--version, -V) are inserted as an item of their own at EVERY position left of the first `--`; oracle: outcome is stdout and equals, byte for byte, the help/version text of the level owning that position (reference level finder: deepest command whose name was the first unclaimed item), version is an ordinary unknown flag where not configured; for general shapes the level is judged while no command name precedes the position; evaluation = one run; non-trivial = judged insertion".into()
+        "definitions = conventional levels (<=2 named items x all tails incl. command tails of depth 3, version configured nowhere / at the top / everywhere), command trees of C08 (every fifth with custom - non-ASCII - help names on all levels, every seventh on the sub-commands only), the general shape family and adjacent group shapes; base vectors = every vector of the token tree (valid, invalid, incomplete); the help token (--help, -h, custom names) and the version token (--version, -V) are inserted as an item of their own at EVERY position left of the first `--`; oracle: outcome is stdout and equals, byte for byte, the help/version text of the level owning that position (reference level finder: deepest command whose name was the first unclaimed item), version is an ordinary unknown flag where not configured; for general shapes the level is judged while no command name precedes the position; evaluation = one run; non-trivial = judged insertion".into()
     }
     fn bounds(&self, tier: Tier) -> Value {
         json!({"base_vector_length": tier.pick("3 (1 item), 2 (2 items, trees, shapes), 3 (groups)", "4 / 3 / 4"), "insert_positions": "all, left of `--`"})
@@ -427,14 +439,20 @@ fn run_u(u: &Unit, unit: &Value, only: Option<(&[Tok], usize, &str)>, ctx: &mut 
             }
             walk(&mut o.p);
         }
-        custom(&mut opts);
+        if u.custom_sub_only {
+            let keep = opts.cfg.help_names.clone();
+            custom(&mut opts);
+            opts.cfg.help_names = keep;
+        } else {
+            custom(&mut opts);
+        }
     }
     let p = match build_checked(&opts) {
         Ok(p) => p,
         Err(_) => return,
     };
     let mut e = Env10 { u, unit, p: &p, model: u.level.as_ref().map(Model::new), help_cache: BTreeMap::new(), top_help: None };
-    if u.custom_help {
+    if u.custom_help && !u.custom_sub_only {
         if let Some(m) = &mut e.model {
             m.flags.push('п');
         }
